@@ -73,14 +73,86 @@ def _I():
     return Interval
 
 
+_WHERE = None        # spec of the run being executed (attached to the kept objects)
+_REP = "float"       # representation of the operands of the run being executed (set by impl from spec["rep"])
+KEPT = []            # (object, canonical value when it was produced, label, case description): theme A
+KEPT_MAX = 64
+
+
+def _integral(vals):
+    return all(float(x) == int(x) and abs(x) < 2 ** 40 for x in vals)
+
+
+def keep(obj, label, where=None):
+    """remember a REAL operand / result object and its canonical value; verified again later (aliasing, shared buffers)"""
+    try:
+        c = canon(obj)
+    except TypeError:
+        return obj
+    KEPT.append((obj, c, label, where if where is not None else _WHERE))
+    return obj
+
+
+def same_canon(a, b):
+    def eq(u, v):
+        return len(u) == len(v) and all((x == y) or (x != x and y != y) for x, y in zip(u, v))
+    return a[0] == b[0] and eq(a[1], b[1]) and eq(a[2], b[2])
+
+
+def verify_kept(ctx, final=False):
+    """re-read the kept objects: they must still have the value they had when they were produced"""
+    global KEPT
+    if not final and len(KEPT) < KEPT_MAX:
+        return
+    check, KEPT = (KEPT, []) if final else (KEPT[: KEPT_MAX // 2], KEPT[KEPT_MAX // 2:])
+    for obj, c0, label, where in check:
+        try:
+            c1 = canon(obj)
+        except BaseException as e:  # noqa
+            c1 = ("err", type(e).__name__, [])
+        ctx.bump("kept-objects-reverified")
+        if c1[0] != "ok" or not same_canon(c0, c1):
+            ctx.fail({"family": "aliasing", "check": "kept-" + label, "symptom": "object-changed-after-later-calls"},
+                     {"where": where, "recorded": pbx.js(c0), "now": pbx.js(c1) if c1[0] == "ok" else list(c1)},
+                     f"a {label} object of an earlier case no longer has the value it had when it was produced "
+                     f"(shared buffer / aliasing): {json.dumps(where, default=str)[:200]}")
+
+
 def mkI(v):
-    """[lo, hi] -> scalar Interval ; [[los],[his]] -> vector Interval ; number -> float"""
+    """[lo, hi] -> scalar Interval ; [[los],[his]] -> vector Interval ; number -> float (int under the int representation)"""
     I = _I()
     if isinstance(v, (int, float)):
-        return float(v)
+        return num(v)
     if isinstance(v[0], (list, tuple)):
-        return I(np.array(v[0], dtype=float), np.array(v[1], dtype=float))
-    return I(float(v[0]), float(v[1]))
+        if _REP == "int" and _integral(list(v[0]) + list(v[1])):
+            return keep(I(np.array(v[0], dtype=np.int64), np.array(v[1], dtype=np.int64)), "operand")
+        if _REP == "list":
+            return keep(I([float(x) for x in v[0]], [float(x) for x in v[1]]), "operand")
+        if _REP == "pos":
+            return keep(I(np.array(v[0], dtype=float), np.array(v[1], dtype=float)), "operand")
+        return keep(I(lo=np.array(v[0], dtype=float), hi=np.array(v[1], dtype=float)), "operand")
+    if _REP == "int" and _integral(v):
+        return keep(I(int(v[0]), int(v[1])), "operand")
+    if _REP == "pos" or _REP == "list":
+        return keep(I(float(v[0]), float(v[1])), "operand")
+    return keep(I(lo=float(v[0]), hi=float(v[1])), "operand")
+
+
+def stair(l, r):
+    """Staircase operand in the representation of the current run"""
+    S = pbx.Staircase()
+    if _REP == "int" and _integral(list(l) + list(r)):
+        return keep(S(left=np.array(l, dtype=np.int64), right=np.array(r, dtype=np.int64)), "operand")
+    if _REP == "list":
+        return keep(S(left=[float(x) for x in l], right=[float(x) for x in r]), "operand")
+    if _REP == "pos":
+        return keep(S(np.array(l, dtype=float), np.array(r, dtype=float)), "operand")
+    return keep(S(left=np.array(l, dtype=float), right=np.array(r, dtype=float)), "operand")
+
+
+def num(c):
+    """a number operand: a Python int under the int representation (also a huge one: 10**18 times an int64 array overflows)"""
+    return int(c) if (_REP == "int" and float(c) == int(c)) else float(c)
 
 
 def canon(r):
@@ -104,7 +176,11 @@ def guarded(f):
         with warnings.catch_warnings():
             warnings.simplefilter("ignore")
             with np.errstate(all="ignore"):
-                return canon(f())
+                r = f()
+                c = canon(r)
+                if not isinstance(r, (int, float, tuple)):
+                    KEPT.append((r, c, "result", _WHERE))
+                return c
     except OutOfDomain as e:
         return ("err", "Domain", str(e))
     except BaseException as e:  # noqa
@@ -132,7 +208,7 @@ def ieval(t, xs):
     if k == "v":
         return xs[t[1]]
     if k == "n":
-        return float(t[1])
+        return num(t[1])
     if k == "g":
         return -ieval(t[1], xs)
     a, b = ieval(t[2], xs), ieval(t[3], xs)
@@ -152,12 +228,12 @@ def peval(t, xs):
             raise OutOfDomain("divisor contains zero")
         return getattr(a, t[1])(b, dependency=t[2])
     if k == "r":
-        return PYOPS[t[1]](peval(t[2], xs), float(t[3]))
+        return PYOPS[t[1]](peval(t[2], xs), num(t[3]))
     if k == "l":
         a = peval(t[3], xs)
         if t[1] == "div" and holds0(a):
             raise OutOfDomain("divisor contains zero")
-        return PYOPS[t[1]](float(t[2]), a)
+        return PYOPS[t[1]](num(t[2]), a)
     if k == "g":
         return -peval(t[1], xs)
     if k == "e":
@@ -197,11 +273,61 @@ RAW = {"frechet": "frechet_op", "perfect": "perfect_op", "opposite": "opposite_o
 def to_operand(kind, v):
     if kind == "interval":
         return mkI([v[0][0], v[1][-1]])
-    return pbx.stair(*v)
+    return stair(*v)
+
+
+def make_dependency(spec):
+    from pyuncertainnumber import pba
+    fam, d = spec["family"], len(spec["kinds"])
+    if fam is None:
+        return None
+    if fam == "independence":
+        return pba.Dependency("independence", k_dim=d)
+    if fam == "gaussian":
+        corr = spec["param"] if d == 2 else np.array([[1.0, spec["param"], 0.2], [spec["param"], 1.0, 0.1], [0.2, 0.1, 1.0]])
+        return pba.Dependency("gaussian", corr=corr, k_dim=d)
+    return pba.Dependency(fam, theta=spec["param"], k_dim=d)
+
+
+def impl_imc(spec, runs):
+    """interval Monte Carlo on the operand sets of one case, in the order spec['order'], all on ONE dependency object
+    and with the default random_state (as a user who builds the dependency once would do); the first operand set is
+    run once more at the end.  Returns (results per run, level rows per run, repeated result, its rows)."""
+    global _REP, _WHERE
+    _REP, _WHERE = spec.get("rep", "float"), spec
+    from pyuncertainnumber.propagation.mixed_up import interval_monte_carlo
+    try:
+        de = make_dependency(spec)
+    except BaseException as e:  # noqa
+        err = ("err", err_kind(e), f"{type(e).__name__}: {str(e)[:80]}")
+        return [err for _ in runs], [None for _ in runs], err, None
+    order = list(range(len(runs))) if spec["order"] == "narrow-first" else list(range(len(runs) - 1, -1, -1))
+    res, lev = [None] * len(runs), [None] * len(runs)
+
+    def one(inp):
+        box = {}
+        def run():
+            vs = [to_operand(k, v) for k, v in zip(spec["kinds"], inp["vars"])]
+            kw = {}
+            if spec["strategy"] == "subinterval":
+                kw = {"subinterval_style": spec["style"], "n_sub": spec["n_sub"]}
+            if de is not None:
+                kw["dependency"] = de
+            r, u = interval_monte_carlo(vars=vs, func=make_func(spec["tree"]), interval_strategy=spec["strategy"],
+                                        n_sam=spec["n_sam"], side_effects=True, **kw)
+            box["u"] = [[float(a) for a in row] for row in np.atleast_2d(u)]
+            return r
+        return guarded(run), box.get("u")
+    for i in order:
+        res[i], lev[i] = one(runs[i])
+    again, lev_again = one(runs[order[0]])
+    return res, lev, again, lev_again
 
 
 def impl(spec, inp):
     """one run of the real code"""
+    global _REP, _WHERE
+    _REP, _WHERE = spec.get("rep", "float"), spec
     f = spec["f"]
     if f == "ivl-bin":
         return guarded(lambda: PYOPS[spec["op"]](mkI(inp["x"]), mkI(inp["y"])))
@@ -215,22 +341,22 @@ def impl(spec, inp):
         return guarded(lambda: fn(pbx.duck(*inp["x"]), pbx.duck(*inp["y"]), PYOPS[spec["op"]]))
     if f == "pb-bin":
         def run():
-            X, Y = pbx.stair(*inp["x"]), to_operand(spec.get("ykind", "pbox"), inp["y"])
+            X, Y = stair(*inp["x"]), to_operand(spec.get("ykind", "pbox"), inp["y"])
             if spec.get("bare"):
                 return PYOPS[spec["op"]](X, Y)
             return getattr(X, spec["op"])(Y, dependency=spec["dep"])
         return guarded(run)
     if f == "pb-num":
-        c = float(spec["c"])
+        c = num(spec["c"])
         if spec["side"] == "R":
-            return guarded(lambda: PYOPS[spec["op"]](pbx.stair(*inp["x"]), c))
-        return guarded(lambda: PYOPS[spec["op"]](c, pbx.stair(*inp["x"])))
+            return guarded(lambda: PYOPS[spec["op"]](stair(*inp["x"]), c))
+        return guarded(lambda: PYOPS[spec["op"]](c, stair(*inp["x"])))
     if f == "pb-neg":
-        return guarded(lambda: -pbx.stair(*inp["x"]))
+        return guarded(lambda: -stair(*inp["x"]))
     if f == "pb-recip":
-        return guarded(lambda: pbx.stair(*inp["x"]).reciprocal())
+        return guarded(lambda: stair(*inp["x"]).reciprocal())
     if f == "pb-un":
-        return guarded(lambda: UN_PB[spec["fn"]](pbx.stair(*inp["x"])))
+        return guarded(lambda: UN_PB[spec["fn"]](stair(*inp["x"])))
     if f == "pb-agg":
         def run():
             ops = [to_operand(k, v) for k, v in zip(spec["kinds"], inp["ops"])]
@@ -243,7 +369,7 @@ def impl(spec, inp):
             return (pun.envelope if spec["agg"] == "env" else pun.imposition)(*ops)
         return guarded(run)
     if f == "ptree":
-        return guarded(lambda: peval(spec["tree"], [pbx.stair(*v) for v in inp["vars"]]))
+        return guarded(lambda: peval(spec["tree"], [stair(*v) for v in inp["vars"]]))
     if f == "stack":
         def run():
             from pyuncertainnumber.pba.aggregation import stacking
@@ -255,7 +381,7 @@ def impl(spec, inp):
             return stacking([[a, b] for a, b in zip(inp["lo"], inp["hi"])], weights=w)
         return guarded(run)
     if f == "cut":
-        return guarded(lambda: pbx.stair(*inp["x"]).alpha_cut(float(spec["alpha"])))
+        return guarded(lambda: stair(*inp["x"]).alpha_cut(float(spec["alpha"])))
     if f == "slice":
         def run():
             from pyuncertainnumber.propagation.mixed_up import slicing
@@ -336,7 +462,17 @@ def slice_levels(k):
 
 
 def wire(spec, inp):
-    """request line for the model, or None when this family is checked by the oracle only"""
+    """request line for the model, or None when this run is checked by the oracle only (also: a non-finite value of a
+    transcendental map, which has no rational encoding)"""
+    try:
+        return _wire(spec, inp)
+    except ValueError as e:
+        if "non-finite" in str(e):
+            return None
+        raise
+
+
+def _wire(spec, inp):
     f = spec["f"]
     if f == "ivl-bin":
         return f"bin {spec['op']} {w_opd(inp['x'])} {w_opd(inp['y'])}"
@@ -406,6 +542,13 @@ def wire(spec, inp):
         if spec["strategy"] != "direct":
             return None
         return f"itree {w_itree(spec['tree'])} {ql([b[0] for b in inp['box']])} {ql([b[1] for b in inp['box']])}"
+    if f == "imc":
+        rows = inp.get("_levels")
+        if spec["strategy"] != "direct" or not rows:
+            return None
+        vs = [as_box(k, v) for k, v in zip(spec["kinds"], inp["vars"])]
+        return (f"imc {ql(pvals())} {q(1 / len(rows))} {len(rows)} " + " ".join(ql(r) for r in rows) + " "
+                + w_itree(spec["tree"]) + " " + " ".join(wire_pb(*v) for v in vs))
     raise ValueError(f)
 
 
@@ -458,9 +601,76 @@ def cum_ambiguous(spec, inp):
 
 # =====================================================================================================
 # agreement and containment
-def agree(im, mo, exact, depth):
+def flat_mags(v, acc):
+    if isinstance(v, dict):
+        for k, x in v.items():
+            if not k.startswith("_"):
+                flat_mags(x, acc)
+    elif isinstance(v, (list, tuple)):
+        for x in v:
+            flat_mags(x, acc)
+    elif isinstance(v, (int, float)):
+        acc.append(abs(float(v)))
+    return acc
+
+
+def tree_mag(t, leaf, mn):
+    """upper bound of the magnitude of every intermediate value of a nested expression"""
+    k = t[0]
+    if k == "v":
+        return leaf
+    if k == "n":
+        return abs(float(t[1]))
+    if k == "g":
+        return tree_mag(t[1], leaf, mn)
+    if k in ("e", "m"):
+        return max(tree_mag(t[1], leaf, mn), tree_mag(t[2], leaf, mn))
+    if k == "b":
+        op, a, b = (t[1], t[2], t[3]) if len(t) == 4 else (t[1], t[3], t[4])
+        ma, mb = tree_mag(a, leaf, mn), tree_mag(b, leaf, mn)
+    elif k == "r":
+        op, ma, mb = t[1], tree_mag(t[2], leaf, mn), abs(float(t[3]))
+    else:
+        op, ma, mb = t[1], abs(float(t[2])), tree_mag(t[3], leaf, mn)
+    if op in ("add", "sub"):
+        return ma + mb
+    if op == "mul":
+        return 4 * ma * mb
+    return 4 * ma / mn if mn > 0 else float("inf")
+
+
+def mag_hint(spec, runs):
+    """magnitude of the intermediates of the operation: rounding errors are relative to THIS, not to a result that
+    may come from cancellation (and no absolute floor: operands of magnitude 1e-9 keep a relative tolerance)"""
+    vals = flat_mags(runs, [])
+    if "c" in spec:
+        vals.append(abs(float(spec["c"])))
+    leaf = max(vals + [0.0])
+    nz = [v for v in vals if v > 0]
+    mn = min(nz) if nz else 0.0
+    f = spec["f"]
+    try:
+        if "tree" in spec:
+            return min(tree_mag(spec["tree"], leaf, min(mn, 1.0)), 1e300)
+        op = spec.get("op")
+        if op in ("add", "sub"):
+            return 2 * leaf
+        if op in ("mul", "div"):
+            # a single product / quotient is accurate relative to ITS OWN magnitude; only the Frechet product of
+            # straddling operands (Balch: (x - x0)(y - y0) + ...) and the p-box quotient (1/y first) have intermediates
+            if f in ("pb-bin", "pb-raw") and (spec.get("dep") == "f" or spec.get("rule") in ("frechet", "naive")):
+                return min(4 * leaf * leaf if op == "mul" else (4 * leaf / mn if mn > 0 else 1e300), 1e300)
+            return 0.0
+        if spec.get("fn") in ("sin", "cos", "tan", "tanh", "pow2", "pow3"):
+            return leaf
+    except (OverflowError, ZeroDivisionError):
+        return 1e300
+    return 0.0
+
+
+def agree(im, mo, exact, depth, hint=0.0):
     """exact: every entry of the real result IS the model's rational.  general: |impl - model| <= 4*depth*ulp(S),
-    S the largest magnitude in either result"""
+    S the largest magnitude in either result or among the intermediates of the operation"""
     if im[0] != mo[0]:
         return False
     if im[0] == "err":
@@ -473,7 +683,7 @@ def agree(im, mo, exact, depth):
     if exact:
         return all(q(a) == b for a, b in zip(vi, vm))
     fm = [rat2float(b) for b in vm]
-    S = max([abs(a) for a in vi] + [abs(b) for b in fm] + [1e-300])
+    S = max([abs(a) for a in vi] + [abs(b) for b in fm] + [1e-300, hint])
     tol = 4 * depth * core.ulp(S)
     return all(abs(a - b) <= tol for a, b in zip(vi, fm))
 
@@ -482,13 +692,13 @@ def finite(res):
     return all(not (math.isinf(v) or math.isnan(v)) for v in res[1] + res[2])
 
 
-def contained(a, b, exact, depth=16):
+def contained(a, b, exact, depth=16, hint=0.0):
     """real result a inside real result b, bound by bound (binary64 comparisons are exact); None or a witness"""
     if len(a[1]) != len(b[1]) or len(a[2]) != len(b[2]):
         return {"why": "length", "len": [len(a[1]), len(b[1])]}
     tol = 0.0
     if not exact:
-        scale = max([abs(v) for v in a[1] + a[2] + b[1] + b[2]] + [1.0])
+        scale = max([abs(v) for v in a[1] + a[2] + b[1] + b[2]] + [1e-300, hint])
         tol = 4 * depth * core.ulp(scale)
     for k, (x, y) in enumerate(zip(a[1], b[1])):
         if not (y <= x or (tol and y - x <= tol)):
@@ -575,6 +785,8 @@ def in_domain(spec, inp):
             return min(inp["x"][0]) > 0
         if fn.endswith("sqrt"):
             return min(inp["x"][0]) >= 0
+        if fn.endswith("exp"):
+            return max(inp["x"][1]) < 700          # binary64 overflow: exp gives inf, the constructor rejects inf - inf
         return True
     return True
 
@@ -685,10 +897,10 @@ def pairing(dep, n, rng):
     return [list(range(n)), list(range(n - 1, -1, -1)), perm]
 
 
-def sub_result_check(spec, inp, res, exact, depth, rng):
+def sub_result_check(spec, inp, res, exact, depth, rng, hint=0.0):
     """None, or a witness that an exactly computed sub-result lies outside the real result"""
     f = spec["f"]
-    scale = F(max([abs(v) for v in res[1] + res[2]] + [1.0]))
+    scale = F(max([abs(v) for v in res[1] + res[2]] + [1e-300, hint]))
     if f == "ivl-bin":
         x, y, op = inp["x"], inp["y"], spec["op"]
         def elems(v):
@@ -817,17 +1029,24 @@ def sub_result_check(spec, inp, res, exact, depth, rng):
                     return {"why": "generalised-inverse", "bound": "left" if side == 1 else "right", "step": k,
                             "expected": float(e), "result": res[side][k]}
         return None
-    if f == "slice":
+    if f in ("slice", "imc"):
         if spec["strategy"] != "direct" and spec.get("repeated"):
             return None
         vs = [as_box(k, v) for k, v in zip(spec["kinds"], inp["vars"])]
         pv = pvals_F()
-        cuts = []
-        for a in slice_levels(spec["k"]):
+
+        def cut_index(a):
             d = [abs(p - F(a)) for p in pv]
-            cuts.append(d.index(min(d)))
+            return d.index(min(d))
+        if f == "slice":
+            cuts = [cut_index(a) for a in slice_levels(spec["k"])]
+            rows = list(itertools.product(cuts, repeat=len(vs)))
+        else:
+            if not inp.get("_levels"):
+                return None
+            rows = [[cut_index(a) for a in row] for row in inp["_levels"]]
         los, his = [], []
-        for row in itertools.product(cuts, repeat=len(vs)):
+        for row in rows:
             box = [(F(v[0][i]), F(v[1][i])) for v, i in zip(vs, row)]
             im = tree_ivl_exact(spec["tree"], box)
             if im is None:
@@ -865,6 +1084,10 @@ def widen_ivl(rng, v, dyadic=True):
     lo, hi = v
     pick = (lambda: rng.choice([0, 0, 0.25, 0.5, 1, 3, 10])) if dyadic else (lambda: rng.choice([0.0, rng.uniform(0, 1), rng.uniform(0, 8)]))
     m = rng.random()
+    if not dyadic and m < 0.25:
+        # thin widening: a few parts in 1e9 of the magnitude (or of the width)
+        e = max(abs(lo), abs(hi), hi - lo) * 10 ** (-rng.uniform(6, 9)) + 1e-300
+        return [lo - e * rng.choice([0, 1, 1]), hi + e * rng.choice([0, 1, 1])]
     if hi < 0 and m < 0.2:
         return [lo - rng.choice([0, 0, 1]), 0.0]
     if lo > 0 and m < 0.2:
@@ -891,7 +1114,15 @@ def narrow_ivl(rng, v, dyadic=True):
     return [a, b]
 
 
+EXTREME = [1e-20, 2.0 ** -60, 1.380649e-23, 1e18, -1e-20, -1e18, 3e15]
+
+
 def rand_ivl(rng, sign=None, dyadic=True):
+    if not dyadic and sign is None and rng.random() < 0.2:
+        # theme C: thin but not degenerate (relative width 1e-9 .. 1e-5), also at tiny magnitudes
+        a = rng.choice([rng.uniform(-8, 8), rng.uniform(-8, 8), 2e-9, -3e-9, 1e6 + rng.random()])
+        w = abs(a) * 10 ** (-rng.uniform(5, 9))
+        return [a, a + w] if rng.random() < 0.8 else [2e-9, 8e-9]
     if dyadic:
         a = rng.choice([-7, -3, -1.5, -1, -0.5, 0, 0.25, 1, 2, 5.5])
         w = rng.choice([0, 0.5, 1, 2, 3, 8])
@@ -926,6 +1157,8 @@ def widen_box(rng, l, r, integer=True, keep_sign=False):
     inc = {"int": (lambda: rng.choice(INC_I)), "dyadic": (lambda: rng.choice([0, 0, 0.125, 0.5, 1, 2.5])),
            "float": (lambda: rng.choice([0.0, 0.0, rng.uniform(0, 0.5), rng.uniform(0, 4)]))}[integer]
     mode = rng.choice(["rand", "rand", "shift", "left", "right", "support", "tail", "big", "first", "zero", "zero"])
+    if integer == "float" and rng.random() < 0.3:
+        mode = "thin"
     l2, r2 = list(l), list(r)
     if mode == "zero" and not (max(r) < 0 or min(l) > 0):
         mode = "rand"
@@ -941,6 +1174,11 @@ def widen_box(rng, l, r, integer=True, keep_sign=False):
         r2 = [a + inc() for a in r]
     elif mode == "support":
         l2, r2 = [min(l)] * n, [max(r)] * n
+    elif mode == "thin":
+        # widen by a few parts in 1e9 of the magnitude: code that compares with np.isclose / allclose sees "the same" box
+        e = max(max(abs(v) for v in l + r), 1e-300) * 10 ** (-rng.uniform(6, 9))
+        l2 = [a - e * rng.choice([0.0, 0.5, 1.0]) for a in l]
+        r2 = [a + e * rng.choice([0.0, 0.5, 1.0]) for a in r]
     elif mode == "zero":
         # widen up to zero exactly: a negative box gets hi == 0, a positive one lo == 0 (touching, not straddling)
         k = rng.choice([1, 1, 2, n // 2 + 1, n])
@@ -1038,6 +1276,14 @@ def dyadic_box(l, r, bits=10):
 def base_box(rng, n, sign=None, general=False):
     """general: False = integer step box, "dyadic" = library box rounded to 2^-10, True = library box as is"""
     if n == STEPS:
+        if general is True and sign is None and rng.random() < 0.25:
+            # theme C: a thin but not degenerate p-box (relative width 1e-9 .. 1e-5), also at a tiny magnitude
+            c0 = rng.choice([rng.uniform(-8, 8), 5e-9, 1e6])
+            sc = abs(c0) * 10 ** (-rng.uniform(5, 8))
+            l = sorted(c0 + sc * rng.random() for _ in range(n))
+            r = [a + sc * rng.choice([0.0, 0.5, 1.0]) for a in l]
+            r = [float(x) for x in np.maximum.accumulate(r)]
+            return l, r
         if general:
             l, r, _ = pbx.lib_box200(rng, sign)
             if general == "dyadic":
@@ -1062,11 +1308,18 @@ def rand_itree(rng, depth, nvars, div=False, once=None):
             return ["n", rng.choice([-2, -1, 0.5, 1, 3])]
         if rng.random() < 0.8:
             return ["v", rng.randrange(nvars)]
-        return ["n", rng.choice([-2, -1, 0.5, 1, 3])]
+        return ["n", rng.choice([-2, -1, 0.5, 1, 3, 3, 1e-20, 1e18])]
     if rng.random() < 0.1:
         return ["g", rand_itree(rng, depth - 1, nvars, div, once)]
     ops = ["add", "sub", "mul", "mul"] + (["div"] if div else [])
     return ["b", rng.choice(ops), rand_itree(rng, depth - 1, nvars, div, once), rand_itree(rng, depth - 1, nvars, div, once)]
+
+
+def tree_extreme(t):
+    """does the expression contain a constant whose products are not exact in binary64"""
+    if t[0] == "n":
+        return not (abs(float(t[1])) <= 64 and float(t[1]) * 8 == int(float(t[1]) * 8))
+    return any(tree_extreme(c) for c in t[1:] if isinstance(c, (list, tuple)))
 
 
 def tree_depth(t):
@@ -1123,6 +1376,9 @@ def gen_cases(ctx):
     cases = []
 
     def add(stream, spec, runs, exact, nontriv=True):
+        if "rep" not in spec and spec["f"] != "pb-raw":
+            # theme B: the same numbers as float arrays (keywords), int64 arrays / Python ints, Python lists, positional arguments
+            spec["rep"] = rng.choice(["float"] * 11 + ["int"] * 4 + ["list"] * 2 + ["pos"] * 3)
         cases.append({"stream": stream, "spec": spec, "runs": runs, "exact": exact, "nontrivial": nontriv})
 
     # ---- 1. scalar / vector intervals: one operator
@@ -1134,7 +1390,7 @@ def gen_cases(ctx):
         klen = rng.choice([2, 3, 5])
         def one(kind):
             if kind == "N":
-                c = rng.choice([-2.5, -1, 0, 0.5, 3]) if dy else rng.uniform(-4, 4)
+                c = rng.choice([-2.5, -1, 0, 0.5, 3]) if dy else (rng.choice(EXTREME) if rng.random() < 0.3 else rng.uniform(-4, 4))
                 return c, c
             if kind == "I":
                 return pair_ivl(rng, None, dy)
@@ -1168,7 +1424,7 @@ def gen_cases(ctx):
         keep = [rng.random() < 0.3 for _ in range(nv)]
         b1 = [p[0] for p in ps]
         b2 = [p[0] if k and nv > 1 else p[1] for p, k in zip(ps, keep)]
-        add("itree", {"f": "itree", "tree": t, "depth": tree_depth(t)}, [{"box": b1}, {"box": b2}], exact=(dy and not div),
+        add("itree", {"f": "itree", "tree": t, "depth": tree_depth(t)}, [{"box": b1}, {"box": b2}], exact=(dy and not div and not tree_extreme(t)),
             nontriv=(b1 != b2 and bool(tree_vars(t))))
     # ---- 4. raw combination rules, small n (index arithmetic exhaustively exercised)
     signs = ["pos", "neg", "str", None, "pos0", "neg0"]
@@ -1264,15 +1520,75 @@ def gen_cases(ctx):
         x, x2 = pair_box(rng, base_box(rng, STEPS, sx, general), grid, keep_sign=(kind == "recip"))
         if kind == "num":
             op, side = rng.choice(OPS4), rng.choice(["R", "L"])
-            c = rng.choice([-3, -1, 0, 1, 2, 5]) if general is False else rng.choice([-2.5, -1.0, 0.0, 0.5, 3.0])
+            c = rng.choice([-3, -1, 0, 1, 2, 5, 5, 10 ** 18, -3 * 10 ** 15]) if general is False else rng.choice([-2.5, -1.0, 0.0, 0.5, 3.0] + EXTREME)
             if op == "div" and side == "L":
                 x, x2 = pair_box(rng, base_box(rng, STEPS, rng.choice(["pos", "neg"]), general), grid, keep_sign=True)
             spec = {"f": "pb-num", "op": op, "side": side, "c": c}
-            exact = general is not True and op != "div"
+            exact = general is not True and op != "div" and abs(c) < 1e6 and c not in EXTREME
         else:
             spec = {"f": "pb-" + kind}
             exact = kind == "neg"
         add("pb-num", spec, [{"x": x}, {"x": x2}], exact, nontriv=(x != x2))
+    # ---- 6b. theme D: extreme constants (below machine epsilon, above 1e15) as the number operand, every operation,
+    #           both sides, intervals and p-boxes
+    for c in EXTREME:
+        for op in OPS4:
+            for side in ("R", "L"):
+                dy = rng.random() < 0.5
+                x, x2 = pair_ivl(rng, rng.choice([None, "pos", "neg"]), dy)
+                runs = [{"x": x, "y": c}, {"x": x2, "y": c}] if side == "R" else [{"x": c, "y": x}, {"x": c, "y": x2}]
+                add("extreme-const", {"f": "ivl-bin", "op": op, "form": "IN" if side == "R" else "NI", "widened": "x"}, runs, False,
+                    nontriv=(x != x2))
+                general = pick_general(rng, 0.3, 0.2)
+                sx = rng.choice(["pos", "neg"]) if (op == "div" and side == "L") else rng.choice(signs)
+                bx, bx2 = pair_box(rng, base_box(rng, STEPS, sx, general), grid_of(general), keep_sign=(op == "div" and side == "L"))
+                add("extreme-const", {"f": "pb-num", "op": op, "side": side, "c": c}, [{"x": bx}, {"x": bx2}], False, nontriv=(bx != bx2))
+    # ---- 6c. theme B: integer-dtype operands (Interval(2, 5), int64 vectors, Staircase from int64 arrays / lists of
+    #           ints, Python-int constants) with fractional and huge constants: an integer dtype must not survive
+    def int_ivl_pair(sign=None):
+        a = rng.choice([-7, -3, -1, 0, 1, 2, 5])
+        w = rng.choice([0, 1, 2, 3, 8])
+        lo, hi = a, a + w
+        if sign == "pos" and lo <= 0:
+            lo, hi = 1, 1 + w
+        if sign == "neg" and hi >= 0:
+            lo, hi = -1 - w, -1
+        v = [lo, hi]
+        if rng.random() < 0.6:
+            return v, [lo - rng.choice([0, 1, 3]), hi + rng.choice([0, 1, 3])] if sign is None else v
+        return [lo, lo], v
+    for c in [0.5, 2, -3, 7, 0.25, 10 ** 18, -2.5]:
+        for op in OPS4:
+            for form in ("IN", "NI", "AN", "NA"):
+                if form[0] == "N" and op == "div":
+                    sgn = rng.choice(["pos", "neg"])
+                else:
+                    sgn = None
+                if "A" in form:
+                    ps = [int_ivl_pair(sgn) for _ in range(3)]
+                    x, x2 = [[p_[0][0] for p_ in ps], [p_[0][1] for p_ in ps]], [[p_[1][0] for p_ in ps], [p_[1][1] for p_ in ps]]
+                else:
+                    x, x2 = int_ivl_pair(sgn)
+                runs = [{"x": x, "y": c}, {"x": x2, "y": c}] if form[1] == "N" else [{"x": c, "y": x}, {"x": c, "y": x2}]
+                add("int-dtype", {"f": "ivl-bin", "op": op, "form": form, "widened": "x", "rep": "int"}, runs,
+                    exact=(op != "div" and abs(c) < 1e6), nontriv=(x != x2))
+            for side in ("R", "L"):
+                sx = rng.choice(["pos", "neg"]) if (op == "div" and side == "L") else rng.choice(signs)
+                bx, bx2 = pair_box(rng, base_box(rng, STEPS, sx, False), "int", keep_sign=(op == "div" and side == "L"))
+                add("int-dtype", {"f": "pb-num", "op": op, "side": side, "c": c, "rep": rng.choice(["int", "int", "list"])},
+                    [{"x": bx}, {"x": bx2}], exact=(op != "div" and abs(c) < 1e6), nontriv=(bx != bx2))
+    for _ in range(S(24, 400)):
+        op = rng.choice(OPS4)
+        form = rng.choice(["II", "AA", "AI", "IA"])
+        def one_i(kind, sign=None):
+            if kind == "I":
+                return int_ivl_pair(sign)
+            ps = [int_ivl_pair(sign) for _ in range(3)]
+            return [[p_[0][0] for p_ in ps], [p_[0][1] for p_ in ps]], [[p_[1][0] for p_ in ps], [p_[1][1] for p_ in ps]]
+        x, x2 = one_i(form[0])
+        y, y2 = one_i(form[1], rng.choice(["pos", "neg"]) if op == "div" else None)
+        add("int-dtype", {"f": "ivl-bin", "op": op, "form": form, "widened": "both", "rep": "int"},
+            [{"x": x, "y": y}, {"x": x2, "y": y2}], exact=(op != "div"), nontriv=(x != x2 or y != y2))
     # ---- 7. unary maps of a p-box
     for _ in range(S(100, 2500)):
         general = pick_general(rng, 0.3, 0.2)
@@ -1375,7 +1691,52 @@ def gen_cases(ctx):
         spec = {"f": "slice", "tree": t, "k": k, "kinds": kinds, "strategy": strategy, "style": style,
                 "n_sub": rng.choice([2, 3]) if strategy == "subinterval" else None, "monotone": strategy != "direct",
                 "repeated": len(set(tree_vars(t))) != len(tree_vars(t))}
-        add("slice", spec, [{"vars": v1}, {"vars": v2}], exact=(general is False and strategy == "direct"), nontriv=(v1 != v2))
+        add("slice", spec, [{"vars": v1}, {"vars": v2}], exact=(general is False and strategy == "direct" and not tree_extreme(t)), nontriv=(v1 != v2))
+    # ---- 12b. interval Monte Carlo: the pair (and a repetition) on ONE dependency object, default random_state,
+    #            in both orders; the discretisation (the rows of levels drawn) has to be the same in every run
+    for gi in range(S(36, 900)):
+        general = pick_general(rng, 0.2, 0.1)
+        grid = grid_of(general)
+        d = rng.choice([2, 2, 2, 3])
+        fam = rng.choice([None, "independence", "gaussian", "gaussian", "frank", "clayton"]) if d == 2 else rng.choice([None, "independence", "gaussian"])
+        param = {"gaussian": rng.choice([0.6, -0.3, 0.9]), "frank": rng.choice([2.0, 5.0]), "clayton": rng.choice([0.5, 2.0])}.get(fam)
+        strategy = rng.choice(["direct", "direct", "direct", "endpoints", "subinterval"])
+        style = rng.choice(["direct", "endpoints"]) if strategy == "subinterval" else None
+        kinds = [rng.choice(["pbox", "pbox", "interval"]) for _ in range(d)]
+        if strategy == "direct":
+            t = rand_itree(rng, rng.choice([1, 2, 3]), d)
+            while not tree_vars(t):
+                t = rand_itree(rng, rng.choice([1, 2, 3]), d)
+            sgn = [rng.choice(signs) for _ in range(d)]
+        else:
+            t = monotone_tree(rng, d)
+            sgn = ["pos"] * d
+        ps = [pair_box(rng, base_box(rng, STEPS, s_, general), grid, keep_sign=(strategy != "direct")) for s_ in sgn]
+        keep_ = [rng.random() < 0.3 for _ in range(d)]
+        v1 = [p_[0] for p_ in ps]
+        v2 = [p_[0] if kk and d > 1 else p_[1] for p_, kk in zip(ps, keep_)]
+        spec = {"f": "imc", "tree": t, "kinds": kinds, "strategy": strategy, "style": style, "family": fam, "param": param,
+                "n_sam": rng.choice([1, 2, 5, 20, 40]), "order": ["narrow-first", "wide-first"][gi % 2],
+                "n_sub": rng.choice([2, 3]) if strategy == "subinterval" else None, "monotone": strategy != "direct",
+                "repeated": len(set(tree_vars(t))) != len(tree_vars(t))}
+        add("imc", spec, [{"vars": v1}, {"vars": v2}], exact=(general is False and strategy == "direct" and not tree_extreme(t)), nontriv=(v1 != v2))
+    # ---- 4b. raw rules on thin float boxes (theme C), small n
+    for _ in range(S(150, 3000)):
+        n = rng.choice([2, 3, 4, 6])
+        rule = rng.choice(["frechet", "perfect", "opposite", "independent", "naive"])
+        op = rng.choice(["add", "mul"])
+        def thin_small():
+            c0 = rng.choice([rng.uniform(0.5, 8), 5e-9, 1e6]) * (1 if (rule == "frechet" and op == "mul") else rng.choice([1, -1]))
+            sc = abs(c0) * 10 ** (-rng.uniform(5, 8))
+            l = sorted(c0 + sc * rng.random() for _ in range(n))
+            r = [float(x) for x in np.maximum.accumulate([a + sc * rng.choice([0.0, 0.5, 1.0]) for a in l])]
+            return l, r
+        x, x2 = pair_box(rng, thin_small(), "float", keep_sign=True)
+        y, y2 = pair_box(rng, thin_small(), "float", keep_sign=True)
+        if rng.random() < 0.5:
+            y2 = y
+        add("pb-raw-thin", {"f": "pb-raw", "rule": rule, "op": op, "n": n}, [{"x": x, "y": y}, {"x": x2, "y": y2}], False,
+            nontriv=(x != x2 or y != y2))
     # ---- 13. interval propagation (b2b) with a fixed discretisation
     for gi in range(S(260, 8000)):
         d = rng.choice([2, 2, 3])
@@ -1429,8 +1790,9 @@ WITNESSES = [
 
 # =====================================================================================================
 def features(spec, extra):
-    keep = ("f", "op", "dep", "fn", "rule", "agg", "api", "strategy", "style", "monotone", "repeated", "side", "ykind", "form")
-    d = {("family" if k == "f" else k): spec[k] for k in keep if k in spec and spec[k] is not None}
+    keep = ("f", "op", "dep", "fn", "rule", "agg", "api", "strategy", "style", "monotone", "repeated", "side", "ykind", "form", "rep",
+            "family", "order")
+    d = {("family" if k == "f" else ("copula" if k == "family" else k)): spec[k] for k in keep if k in spec and spec[k] is not None}
     d.update(extra)
     return d
 
@@ -1452,7 +1814,7 @@ def depth_of(spec):
     f = spec["f"]
     if f in ("itree", "ptree"):
         return 16 * (1 + spec.get("depth", 3)) * 4
-    if f in ("slice", "b2b"):
+    if f in ("slice", "b2b", "imc"):
         return 16 * 4 * 4
     return 16
 
@@ -1477,6 +1839,12 @@ def run(ctx: core.Check):
                        "moments (LP) are stubbed in the harness process; they are C04's concern"]
     ctx.lean_stage(["Pun.Lemmas.Iso", "Pun.Props.C12"])
     cases = gen_cases(ctx)
+    global REEXEC
+    REEXEC = []
+    del KEPT[:]
+    for c in cases:
+        if c["spec"]["f"] == "imc":
+            prepare_imc(c)          # the model consumes the level rows each run reported
     # model requests: one per run
     reqs, where = [], []
     for ci, c in enumerate(cases):
@@ -1503,6 +1871,9 @@ def run(ctx: core.Check):
     for t in threads:
         t.start()
     done = [oracle_phase(ctx, c) for c in cases]
+    reexecute(ctx)
+    verify_kept(ctx, final=True)
+    REEXEC = None
     for t in threads:
         t.join()
     if errs:
@@ -1532,7 +1903,7 @@ def tie_phase(ctx, c, impls, models, verbose=False):
         dom = in_domain(spec, inp)
         if im[0] == "err" and im[1] == "Domain":
             continue                # nested divisor containing zero: not compared
-        nested_div_t = spec["f"] in ("itree", "ptree", "slice", "b2b") and tree_has(spec["tree"], ("div",))
+        nested_div_t = spec["f"] in ("itree", "ptree", "slice", "b2b", "imc") and tree_has(spec["tree"], ("div",))
         if (not dom or nested_div_t) and im[0] == "err" and mo[0] == "err":
             ctx.tie_ok()            # both reject; kinds may differ through Python's operator fall-back (c / P -> TypeError)
             continue
@@ -1541,7 +1912,7 @@ def tie_phase(ctx, c, impls, models, verbose=False):
         if im[0] == "ok" and not finite(im):
             if not dom:
                 continue            # numpy inf/nan from a zero divisor: not representable in the model
-        if agree(im, mo, exact, dep):
+        if agree(im, mo, exact, dep, mag_hint(spec, runs)):
             ctx.tie_ok()
         else:
             ctx.tie_bad(stream, {"spec": spec, "input": short(inp)}, pbx.js(im[:3]) if im[0] == "ok" else list(im), model_js(mo))
@@ -1568,20 +1939,79 @@ def oracle_phase(ctx, c):
     spec, runs, exact = c["spec"], c["runs"], c["exact"]
     stream = c["stream"]
     ctx.count((json.dumps(spec, sort_keys=True, default=str), json.dumps(runs, sort_keys=True, default=str)), c["nontrivial"], stream)
-    impls = [impl(spec, inp) for inp in runs]
+    if spec["f"] == "imc":
+        if "_impls" not in c:
+            prepare_imc(c)
+        impls = c["_impls"]
+    else:
+        impls = [impl(spec, inp) for inp in runs]
     dep = depth_of(spec)
     ctx.sample({"stream": stream, "spec": spec, "runs": [short(r) for r in runs],
                 "impl": [pbx.js(i[:3]) if i[0] == "ok" else list(i) for i in impls]})
+    if spec["f"] == "imc" and imc_sequence_checks(ctx, c, impls):
+        return impls
     _oracle(ctx, c, impls, dep)
+    if REEXEC is not None and spec["f"] != "imc" and ctx.evaluations % 14 == 0 and len(REEXEC) < 600:
+        REEXEC.append((spec, runs, impls, stream))
+    verify_kept(ctx)
     return impls
+
+
+REEXEC = None        # cases evaluated a second time at the end of the run, after all the other calls (theme A)
+
+
+def reexecute(ctx):
+    """the same calls again, after thousands of unrelated ones: identical results are demanded"""
+    for spec, runs, impls, stream in REEXEC or []:
+        again = [impl(spec, inp) for inp in runs]
+        ctx.bump("cases-re-executed")
+        for i, (a, b) in enumerate(zip(impls, again)):
+            if a[0] != b[0] or (a[0] == "ok" and not same_canon(a, b)) or (a[0] == "err" and a[1] != b[1]):
+                ctx.fail(features(spec, {"check": "repeat", "symptom": "second-evaluation-differs", "run": i}),
+                         {"spec": spec, "runs": runs, "exact": False, "stream": stream,
+                          "first": pbx.js(a[:3]) if a[0] == "ok" else list(a), "second": pbx.js(b[:3]) if b[0] == "ok" else list(b)},
+                         f"{stream}: the same call evaluated again at the end of the run gives a different result (state carried between calls)")
+                break
+
+
+def prepare_imc(c):
+    res, lev, again, lev_again = impl_imc(c["spec"], c["runs"])
+    for inp, lv in zip(c["runs"], lev):
+        inp["_levels"] = lv
+    c["_impls"], c["_again"], c["_lev_again"] = res, again, lev_again
+
+
+def imc_sequence_checks(ctx, c, impls):
+    """fixed discretisation: every run of the sequence on ONE dependency object uses the same level rows, and the
+    repeated run reproduces the first one.  True when a failure was reported."""
+    spec, runs, stream = c["spec"], c["runs"], c["stream"]
+    case_json = {"spec": spec, "runs": [{k: v for k, v in r.items() if k != "_levels"} for r in runs], "exact": c["exact"], "stream": stream}
+    levs = [r.get("_levels") for r in runs] + [c.get("_lev_again")]
+    if any(i[0] == "err" for i in impls) or c["_again"][0] == "err":
+        return False
+    if any(l != levs[0] for l in levs[1:]):
+        k = next(i for i, l in enumerate(levs) if l != levs[0])
+        ctx.fail(features(spec, {"check": "levels", "symptom": "levels-differ-between-runs"}),
+                 {**case_json, "levels_first": levs[0][:3], "levels_other": (levs[k] or [])[:3]},
+                 f"{stream}: consecutive interval Monte Carlo runs on one dependency object (default random_state) propagate different "
+                 f"probability levels: {levs[0][:2]} vs {(levs[k] or [])[:2]}; the discretisation is not fixed")
+        return True
+    first = impls[0] if spec["order"] == "narrow-first" else impls[-1]
+    if not same_canon(first, c["_again"]):
+        ctx.fail(features(spec, {"check": "repeat", "symptom": "second-evaluation-differs"}),
+                 {**case_json, "first": pbx.js(first[:3]), "again": pbx.js(c["_again"][:3])},
+                 f"{stream}: the same propagation repeated on the same dependency object gives a different p-box")
+        return True
+    return False
 
 
 def _oracle(ctx, c, impls, dep):
     spec, runs, exact, stream = c["spec"], c["runs"], c["exact"], c["stream"]
+    hint = mag_hint(spec, runs)
     # ---- oracle on the real results
     case_json = {"spec": spec, "runs": runs, "exact": exact, "stream": stream}
     doms = [in_domain(spec, inp) for inp in runs]
-    nested_div = spec["f"] in ("itree", "ptree", "slice", "b2b") and tree_has(spec["tree"], ("div",))
+    nested_div = spec["f"] in ("itree", "ptree", "slice", "b2b", "imc") and tree_has(spec["tree"], ("div",))
     for i, (inp, im, dom) in enumerate(zip(runs, impls, doms)):
         if im[0] == "err":
             if not dom or im[1] == "Domain":
@@ -1606,7 +2036,7 @@ def _oracle(ctx, c, impls, dep):
     import random, zlib
     prng = random.Random(zlib.crc32(json.dumps(spec, sort_keys=True, default=str).encode()))
     for i, (inp, im) in enumerate(zip(runs, impls)):
-        w = sub_result_check(spec, inp, im, exact, dep, prng)
+        w = sub_result_check(spec, inp, im, exact, dep, prng, hint)
         if w is not None:
             ctx.fail(features(spec, {"check": "sub-result", "symptom": "exact-sub-result-outside:" + w["why"], "run": i}),
                      {**case_json, "witness": w, "impl": [pbx.js(x[:3]) for x in impls]},
@@ -1614,7 +2044,7 @@ def _oracle(ctx, c, impls, dep):
             return
     ctx.bump("sub-results-checked")
     for i in range(len(runs) - 1):
-        w = contained(impls[i], impls[i + 1], exact, dep)
+        w = contained(impls[i], impls[i + 1], exact, dep, hint)
         if w is not None:
             ctx.fail(features(spec, {"check": "containment", "symptom": "not-contained:" + w["why"]}),
                      {**case_json, "witness": w, "impl": [pbx.js(x[:3]) for x in impls]},
@@ -1632,6 +2062,8 @@ def replay(obj):
     core.stub_moments()
     ctx = core.Check("C12", "replay", 0)
     case = {"stream": c.get("stream", "replay"), "spec": c["spec"], "runs": c["runs"], "exact": c.get("exact", False), "nontrivial": True}
+    if case["spec"]["f"] == "imc":
+        prepare_imc(case)
     reqs = [wire(case["spec"], inp) for inp in case["runs"]]
     reps = core.model_batch("C12", [r for r in reqs if r is not None])
     it = iter(reps)
